@@ -540,9 +540,12 @@ class ImmutableVersion(dns.zone.Version):
                 len(origin),
             )
             right_key = None
-        closest_encloser = dns.name.Name(
-            name[-max(left_comparison[2], right_comparison[2]) :]
-        )
+        common_labels = max(left_comparison[2], right_comparison[2])
+        if common_labels > 0:
+            closest_encloser = dns.name.Name(name[-common_labels:])
+        else:
+            # Only possible in a relativized zone, where the origin is the empty name.
+            closest_encloser = dns.name.empty
         return Bounds(
             name,
             left.key(),
